@@ -203,6 +203,17 @@ spec fn id_run(p: int, n: int) -> Seq<u64> {
     Seq::new(n as nat, |i: int| (p + i) as u64)
 }
 
+// every PENDING page (of whatever transaction) is a tree page below the high-water mark n
+spec fn pend_in_range(f: Freelist, n: u64) -> bool {
+    forall|k: u64, x: u64| f.pending_pages@.contains_key(k) && #[trigger] f.pending_pages@[k]@.contains(x) ==> 1 < x < n
+}
+proof fn lemma_id_run_members(p: int, n: int, x: u64)
+    requires n >= 0, id_run(p, n).contains(x), 0 <= p, p + n <= u64::MAX,
+    ensures p <= x < p + n,
+{
+    let i = choose|i: int| 0 <= i < id_run(p, n).len() && id_run(p, n)[i] == x;
+    assert(id_run(p, n)[i] == (p + i) as u64);
+}
 spec fn meta_same_but_num_pages(a: Meta, b: Meta) -> bool {
     &&& a.meta_page == b.meta_page && a.magic == b.magic && a.version == b.version && a.pagesize == b.pagesize
     &&& a.root == b.root && a.freelist_page == b.freelist_page && a.tx_id == b.tx_id && a.hash == b.hash
